@@ -362,6 +362,41 @@ def coq_bool(line, model_out):
 KNOWN_NAMES = {b"ALPH", b"ANIM", b"ANMF", b"EXIF", b"ICCP", b"VP8 ", b"VP8L", b"VP8X", b"XMP "}
 
 
+def _strip_region(b):
+    """chunks of a region with the unknown ones (and their pad bytes) removed; None if the region is not tiled by chunks"""
+    p, out = 0, b""
+    while p < len(b):
+        if p + 8 > len(b):
+            return None
+        name, n = b[p:p + 4], int.from_bytes(b[p + 4:p + 8], "little")
+        end = p + 8 + n + (n & 1)
+        if end > len(b):
+            return None
+        body = b[p + 8:p + 8 + n]
+        if name == b"ANMF" and n >= 16:
+            inner = _strip_region(body[16:])
+            if inner is None:
+                return None
+            body = body[:16] + inner
+            out += name + len(body).to_bytes(4, "little") + body + (b"\0" if len(body) & 1 else b"")
+        elif name in KNOWN_NAMES:
+            out += b[p:end]
+        p = end
+    return out
+
+
+def strip_unknown(f):
+    if len(f) < 12 or f[:4] != b"RIFF" or f[8:12] != b"WEBP":
+        return None
+    n = int.from_bytes(f[4:8], "little")
+    if 8 + n + (n & 1) != len(f) or n < 4:
+        return None
+    body = _strip_region(f[12:8 + n])
+    if body is None:
+        return None
+    return b"RIFF" + (4 + len(body)).to_bytes(4, "little") + b"WEBP" + body
+
+
 def _flip(line):
     t = line.split(" ")
     t[2] = "0" if t[2] == "1" else "1"
@@ -371,13 +406,24 @@ def _flip(line):
 def _webp_oracle(run, pairs):
     run.use_area("webp")
     other = run.harness(["f%d %s" % (i, _flip(l)) for i, (l, _) in enumerate(pairs)])
-    spec = run.driver(["g%d %s" % (i, (l if l.split(" ")[2] == "1" else _flip(l)).replace("webp ", "wspec ", 1)) for i, (l, _) in enumerate(pairs)])
+    # files accepted only with the option: the same file with every unknown chunk removed (top level and inside frames)
+    stripped, sl = {}, []
+    for i, (l, o) in enumerate(pairs):
+        o2 = other.get("f%d" % i, "missing")
+        off, on = (o, o2) if l.split(" ")[2] == "0" else (o2, o)
+        if on == "ok" and off != "ok":
+            c = W.parse_case(l)
+            if len(c["exts"]) == 1 and c["exts"][0][0] == 0 and len(c["exts"][0][1]) == c["len"]:
+                f2 = strip_unknown(c["exts"][0][1])
+                if f2 is not None:
+                    stripped[i] = f2
+                    sl.append("h%d %s" % (i, W.case_line(c["reader"], False, f2)))
+    strip_res = run.harness(sl) if sl else {}
     run.use_area("mp4")
     out = []
     for i, (l, o) in enumerate(pairs):
         o2 = other.get("f%d" % i, "missing")
         off, on = (o, o2) if l.split(" ")[2] == "0" else (o2, o)
-        g = spec.get("g%d" % i, "missing").split(" need ")[0]
         bad = []
         if off.startswith(("panic", "timeout", "missing")) or on.startswith(("panic", "timeout", "missing")):
             bad.append("implementation: off=%s on=%s" % (off, on))
@@ -393,10 +439,13 @@ def _webp_oracle(run, pairs):
                 nm = bytes.fromhex(off.split(":")[1]) if ":" in off else b""
                 if nm in KNOWN_NAMES:
                     bad.append("UnsupportedChunk reported for the known chunk %r" % nm)
-            # the option made the difference: then it must be the grammar's unknown-chunk clause that made it
-            # (when both settings agree the verdict itself is C06's business, not C14's)
-            if on == "ok" and off != "ok" and g != "true":
-                bad.append("accepted only with the option although the grammar (unknown chunks allowed) says %s: a known chunk out of place?" % g)
+            # the option made the difference (accepted only with it): then the same file WITHOUT its unknown chunks must be
+            # accepted without the option - otherwise something other than an unknown chunk was admitted
+            if on == "ok" and off != "ok" and i in stripped:
+                o3 = strip_res.get("h%d" % i, "missing")
+                if o3 != "ok":
+                    bad.append("accepted only with the option, but the file without its unknown chunks is rejected without the option (%s): "
+                               "a known chunk out of place was admitted" % o3)
         out.append((not bad, "; ".join(bad)))
     return out
 
